@@ -7,6 +7,7 @@ import (
 	"go/token"
 	"go/types"
 	"regexp"
+	"sort"
 	"strings"
 )
 
@@ -465,6 +466,22 @@ func c19R3(p *Prog, r *Report) {
 		rs := scan.Stmt.(*ast.RangeStmt)
 		key := objOf(info, rs.Key)
 		val := objOf(info, rs.Value)
+		if val == nil && key != nil {
+			// `for i := range xs { x := xs[i] … }`: the element is the local given xs[i]
+			for _, v := range fc.G.V {
+				as, ok := v.Node.(*ast.AssignStmt)
+				if !ok || len(as.Lhs) != 1 || len(as.Rhs) != 1 || !(rs.Body.Pos() <= as.Pos() && as.End() <= rs.Body.End()) {
+					continue
+				}
+				if ix, isIx := ast.Unparen(as.Rhs[0]).(*ast.IndexExpr); isIx && objOf(info, ix.Index) == key && objOf(info, ix.X) != nil && objOf(info, ix.X) == objOf(info, rs.X) {
+					val = objOf(info, as.Lhs[0])
+				}
+			}
+		}
+		if val == nil {
+			r.Fail(rule, pre+":scan-element", p.posStr(rs.Pos()), "undecided: the scan does not name the current client's history (neither a range value nor a local given results[i])")
+			continue
+		}
 		// best-index: variable assigned the key inside the body
 		var bestIdx types.Object
 		var updV = -1
@@ -578,6 +595,27 @@ func c19R3(p *Prog, r *Report) {
 			switch n := v.Node.(type) {
 			case *ast.ValueSpec:
 				init = nil // zero value
+				// a bare declaration that a plain assignment overwrites before anything else can
+				// happen to the variable (`var x T` … `x = worst`, or a named result) is not the
+				// initialisation: the assignment is
+				overwritten := false
+				for _, d2 := range fc.Defs(best) {
+					if as2, ok := fc.G.V[d2].Node.(*ast.AssignStmt); ok && d2 != d && as2.Tok == token.ASSIGN && fc.G.Dominates([]int{d}, d2) {
+						between := fc.G.ReachAfter(d, func(u *Vertex) bool { return u.ID == d2 }, nil)
+						used := false
+						for _, u := range fc.G.V {
+							if between[u.ID] && u.Node != nil && u.ID != d2 && usesObj(info, u.Node, best, false) {
+								used = true
+							}
+						}
+						if !used && !between[fc.G.Exit] {
+							overwritten = true
+						}
+					}
+				}
+				if overwritten && len(n.Values) == 0 {
+					continue
+				}
 			case *ast.AssignStmt:
 				for i, l := range n.Lhs {
 					if objOf(info, l) == best && len(n.Lhs) == len(n.Rhs) {
@@ -1067,10 +1105,43 @@ func c19Branches(p *Prog, r *Report, rule string, fc *FuncCtx, tn string, jn fun
 				if v.Node == nil {
 					continue
 				}
-				if isWrite(v.Node, side.success) {
+				// a store whose value is a local set differently on the two edges (`x := failure
+				// value; if err == nil { x = success value }; slot = x`) is judged by what the
+				// local holds when the store is reached from this edge
+				variants := []ast.Node{v.Node}
+				if as, isAs := v.Node.(*ast.AssignStmt); isAs && len(as.Lhs) == 1 && len(as.Rhs) == 1 && as.Tok == token.ASSIGN {
+					if lo, isVar := objOf(info, as.Rhs[0]).(*types.Var); isVar && !lo.IsField() && len(fc.Defs(lo)) > 1 {
+						variants = nil
+						for _, d := range defsReachingFromEdge(fc, e, lo, v.ID) {
+							var rhs ast.Expr
+							if da, ok := fc.G.V[d].Node.(*ast.AssignStmt); ok && len(da.Lhs) == len(da.Rhs) {
+								for i, l := range da.Lhs {
+									if objOf(info, l) == types.Object(lo) {
+										rhs = da.Rhs[i]
+									}
+								}
+							}
+							if rhs == nil {
+								variants = []ast.Node{v.Node}
+								break
+							}
+							variants = append(variants, &ast.AssignStmt{Lhs: as.Lhs, TokPos: as.TokPos, Tok: as.Tok, Rhs: []ast.Expr{rhs}})
+						}
+					}
+				}
+				allMine, anyOther := len(variants) > 0, false
+				for _, n := range variants {
+					if !isWrite(n, side.success) {
+						allMine = false
+					}
+					if isWrite(n, !side.success) {
+						anyOther = true
+					}
+				}
+				if allMine {
 					mine = append(mine, v.ID)
 				}
-				if isWrite(v.Node, !side.success) {
+				if anyOther {
 					other = append(other, v.ID)
 				}
 			}
@@ -1576,4 +1647,31 @@ func c19StoreOrTracked(fc *FuncCtx, wait int, store CallSite, bestIdx types.Obje
 		return false, cur.Name() + " is never updated"
 	}
 	return true, "rounds that do not store leave on " + cur.Name() + " == best index, and " + cur.Name() + " is set to the best index in exactly the rounds that store"
+}
+
+// defsReachingFromEdge: the definitions of obj whose value can be the one read at vertex at on a
+// path that starts by crossing edge e — definitions met after the edge, and, when at can be
+// reached from the edge without meeting any, the definitions that reached the edge's source.
+func defsReachingFromEdge(fc *FuncCtx, e Edge, obj types.Object, at int) []int {
+	isDef := map[int]bool{}
+	for _, d := range fc.Defs(obj) {
+		isDef[d] = true
+	}
+	var out []int
+	noDef := fc.G.Reach([]int{e.To}, func(v *Vertex) bool { return isDef[v.ID] && v.ID != at }, nil)
+	fromEdge := fc.G.Reach([]int{e.To}, nil, nil)
+	for d := range isDef {
+		if d != at && fromEdge[d] && reachesWithoutDef(fc.G, d, at, isDef) {
+			out = append(out, d)
+		}
+	}
+	if noDef[at] && !isDef[e.To] {
+		for _, d := range fc.ReachingDefs(e.From, obj) {
+			if d != fc.G.Entry {
+				out = append(out, d)
+			}
+		}
+	}
+	sort.Ints(out)
+	return out
 }
